@@ -1,6 +1,7 @@
 import Driver.Common
 import Driver.Galloc
 import Driver.TapeDrv
+import Driver.RecBufDrv
 /-! `adept_model <family>`: line protocol on stdin/stdout, one result line per input line.
     Every import of this file must stay free of Mathlib (the driver is linked natively). -/
 open Adept Adept.Drv
@@ -9,4 +10,5 @@ def main (args : List String) : IO UInt32 := do
   match args with
   | ["galloc"] => runFamily GallocDrv.step {}; return 0
   | ["tape"] => runFamily TapeDrv.step {}; return 0
+  | ["recbuf"] => runFamily RecBufDrv.step (); return 0
   | _ => IO.eprintln "usage: adept_model <family>"; return 2
